@@ -30,6 +30,56 @@ type Outcome struct {
 	Steps     uint64
 	Raw       starlark.StringDict
 	Err       error
+	// Post: after a successful execution the host calls the module's functions directly (empty call stack).
+	Post []*PostCall
+}
+
+// PostCall is one host-side call of a global function after the module has finished.
+type PostCall struct {
+	Name   string
+	Args   string
+	Result string // canonical rendering of the value returned
+	Out    *Outcome
+}
+
+const maxPostCalls = 6
+
+// postCalls calls up to maxPostCalls global functions (in name order) with small ints for the parameters that need a
+// value; sig tells how many positional arguments and which keyword-only names a function requires.
+func postCalls(o *Outcome, thread *starlark.Thread, g starlark.StringDict, tr *host.Trace, sig func(v starlark.Value) (int, []string, bool),
+	fill func(out *Outcome, err error)) {
+	if o.Failed || o.Budget {
+		return
+	}
+	n := 0
+	for _, name := range g.Keys() {
+		npos, kw, ok := sig(g[name])
+		if !ok {
+			continue
+		}
+		if n++; n > maxPostCalls {
+			break
+		}
+		var args starlark.Tuple
+		for i := 0; i < npos; i++ {
+			args = append(args, starlark.MakeInt(i+1))
+		}
+		var kwargs []starlark.Tuple
+		for i, k := range kw {
+			kwargs = append(kwargs, starlark.Tuple{starlark.String(k), starlark.MakeInt(10 + i)})
+		}
+		before := len(tr.Events)
+		v, err := starlark.Call(thread, g[name], args, kwargs)
+		pc := &PostCall{Name: name, Args: fmt.Sprintf("%v %v", args, kwargs), Out: &Outcome{Trace: append([]string(nil), tr.Events[before:]...), Err: err}}
+		if err == nil {
+			pc.Result = host.CanonValue(v)
+		}
+		fill(pc.Out, err)
+		o.Post = append(o.Post, pc)
+		if pc.Out.Budget {
+			break
+		}
+	}
 }
 
 const MaxSteps = 400000
@@ -52,8 +102,35 @@ func ImplWith(p gen.Program, exec func(thread *starlark.Thread, pre starlark.Str
 		return implLoad(p, tr, cache, module)
 	}
 	g, err := exec(thread, pre)
-	o := &Outcome{Trace: tr.Events, Globals: host.Canon(g), Raw: g, Steps: thread.ExecutionSteps(), Err: err}
+	o := &Outcome{Trace: append([]string(nil), tr.Events...), Globals: host.Canon(g), Raw: g, Steps: thread.ExecutionSteps(), Err: err}
 	fillImplError(o, err)
+	postCalls(o, thread, g, tr, func(v starlark.Value) (int, []string, bool) {
+		f, ok := v.(*starlark.Function)
+		if !ok {
+			return 0, nil, false
+		}
+		npos := 0
+		var kw []string
+		nparams := f.NumParams()
+		if f.HasKwargs() {
+			nparams--
+		}
+		if f.HasVarargs() {
+			nparams--
+		}
+		for i := 0; i < nparams; i++ {
+			name, _ := f.Param(i)
+			if f.ParamDefault(i) != nil {
+				continue
+			}
+			if i >= nparams-f.NumKwonlyParams() {
+				kw = append(kw, name)
+			} else {
+				npos++
+			}
+		}
+		return npos, kw, true
+	}, fillImplError)
 	return o
 }
 
@@ -122,25 +199,36 @@ func Ref(p gen.Program) *Outcome {
 		return refLoad(in, p, tr, cache, module)
 	}
 	g, err := in.ExecFile(p.Opts.FileOptions(), "prog.star", p.Src, pre)
-	o := &Outcome{Trace: tr.Events, Globals: host.Canon(g), Raw: g, Err: err}
-	if in.Fuel <= 1 {
-		o.Budget = true
-	}
-	if err != nil {
-		o.Failed = true
-		o.ErrMsg = err.Error()
-		var re *ref.Error
-		if errors.As(err, &re) {
-			o.Frames = re.Stack
-			o.InCallee = re.InCallee
-			o.InSlice = re.InSlice
-			o.SliceSpan = re.SliceSpan
-		} else if errors.Is(err, ref.ErrFuel) {
+	o := &Outcome{Trace: append([]string(nil), tr.Events...), Globals: host.Canon(g), Raw: g, Err: err}
+	fillRef := func(o *Outcome, err error) {
+		if in.Fuel <= 1 {
 			o.Budget = true
-		} else {
-			o.Static = true
+		}
+		if err != nil {
+			o.Failed = true
+			o.ErrMsg = err.Error()
+			var re *ref.Error
+			if errors.As(err, &re) {
+				o.Frames = re.Stack
+				o.InCallee = re.InCallee
+				o.InSlice = re.InSlice
+				o.SliceSpan = re.SliceSpan
+			} else if errors.Is(err, ref.ErrFuel) {
+				o.Budget = true
+			} else {
+				o.Static = true
+			}
 		}
 	}
+	fillRef(o, err)
+	postCalls(o, thread, g, tr, func(v starlark.Value) (int, []string, bool) {
+		f, ok := v.(*ref.Function)
+		if !ok {
+			return 0, nil, false
+		}
+		npos, kw := f.Required()
+		return npos, kw, true
+	}, fillRef)
 	return o
 }
 
@@ -205,6 +293,34 @@ func Compare(a, b *Outcome) string {
 	if a.Globals != b.Globals {
 		return fmt.Sprintf("final globals differ:\nimplementation:\n%s\nreference:\n%s", a.Globals, b.Globals)
 	}
+	if d := compareFailure(a, b); d != "" {
+		return d
+	}
+	// host-side calls after the module finished
+	if len(a.Post) != len(b.Post) {
+		return fmt.Sprintf("host-side calls: %d on the implementation, %d on the reference", len(a.Post), len(b.Post))
+	}
+	for i, pa := range a.Post {
+		pb := b.Post[i]
+		what := fmt.Sprintf("host-side call %s%s after the module finished: ", pa.Name, pa.Args)
+		if pa.Name != pb.Name || pa.Args != pb.Args {
+			return what + fmt.Sprintf("the reference sees %s%s (parameter metadata differs)", pb.Name, pb.Args)
+		}
+		if pa.Out.Budget || pb.Out.Budget {
+			break
+		}
+		pa.Out.Globals, pb.Out.Globals = "", ""
+		if d := Compare(pa.Out, pb.Out); d != "" {
+			return what + d
+		}
+		if pa.Result != pb.Result {
+			return what + fmt.Sprintf("returns %s, reference %s", pa.Result, pb.Result)
+		}
+	}
+	return ""
+}
+
+func compareFailure(a, b *Outcome) string {
 	if a.Failed {
 		fa, fb := a.Frames, b.Frames
 		if b.InCallee != "" {
